@@ -302,7 +302,7 @@ class ExactGP(GP):
                     )
 
             # Get the terms that only depend on training data
-            if self.prediction_strategy is None:
+            if self.prediction_strategy is None or getattr(self.prediction_strategy, "is_stale", False):
                 train_output = super().__call__(*train_inputs, **kwargs)
 
                 # Create the prediction strategy for
